@@ -256,12 +256,14 @@ class World:
         self.dbapi = faults.LedgerDBAPI(led)
         self.eng = eng = create_engine(
             "sqlite:///" + env.db, module=self.dbapi, poolclass=QueuePool, pool_size=2, max_overflow=0,
-            pool_pre_ping=pp, connect_args={"autocommit": False, "timeout": 0},
+            pool_pre_ping=pp, pool_timeout=0, connect_args={"autocommit": False, "timeout": 0},
         )
         if listener != "none":
 
             @event.listens_for(eng, "handle_error")
             def _h(ctx):
+                if not isinstance(ctx.original_exception, sqlite3.Error):
+                    return  # like real handlers, only driver errors are re-classified
                 if listener == "force_true":
                     ctx.is_disconnect = True
                 elif listener == "force_false":
@@ -346,7 +348,10 @@ class World:
 
     def observe(self):
         conn = self.conn
-        pub = frozenset(r[0] for r in self.env.obs.execute("select x from t"))
+        try:
+            pub = frozenset(r[0] for r in self.env.obs.execute("select x from t"))
+        except sqlite3.OperationalError:
+            pub = None  # a leaked connection keeps the database locked (only legitimate in loose mode)
         o = dict(pub=pub, invalidated=conn.invalidated, closed=conn.closed, in_tx=conn.in_transaction(),
                  in_nested=conn.in_nested_transaction(), cid=self.cur_cid(), inside=None,
                  checkedin=self.eng.pool.checkedin(), checkedout=self.eng.pool.checkedout(),
@@ -389,6 +394,8 @@ def first_event(slice_):
     for i, c in enumerate(slice_):
         if c.kind in SWALLOWED and c.fault != "exit":
             continue
+        if c.kind == "close" and c.fault != "exit":
+            continue  # the pool logs and swallows errors of close()
         if c.fault is not None:
             return i, c, c.fault
         if c.dead and c.kind != "close":
@@ -448,9 +455,11 @@ def make_step(rec, env, cfg):
 
         def finish(m2):
             if after["cid"] is not None and after["cid"] in m2.retired:
-                return bad("retired-connection-used", "the Connection runs on retired ledger id c%s" % after["cid"])
+                return bad("retired-connection-used", "the Connection runs on a retired DBAPI connection (c%s)" % after["cid"])
             if not m2.loose:
                 # data clauses: P3 no silent continuation, P4 / P5 committed == executed
+                if after["pub"] is None:
+                    return bad("database-left-locked", "the observer connection cannot read: a lock was left behind")
                 if after["pub"] != m2.tx.pub:
                     return bad("published-rows", "observer sees %s, model %s" % (sorted(after["pub"]), sorted(m2.tx.pub)))
                 if (after["inside"] is not None and not m2.zombie and m2.status == "ok"
@@ -462,14 +471,16 @@ def make_step(rec, env, cfg):
                 if after["invalidated"] != (m2.status == "inv"):
                     return bad("invalidated-flag", "conn.invalidated=%s, model %s" % (after["invalidated"], m2.status == "inv"))
             rec.outcome((op, None if ev is None else (ev[2], ev[1].kind), outcome, type(err).__name__ if err else None,
-                         m2.status, m2.root, m2.loose, after["invalidated"], after["in_tx"], len(after["pub"])))
+                         m2.status, m2.root, m2.loose, after["invalidated"], after["in_tx"],
+                         None if after["pub"] is None else len(after["pub"])))
             if fired and (len(hist_) + m2.root + len(sl)) % 7 == 3:
                 rec.sample(dict(listener=listener, pre_ping=pp, history=names,
                                 raised=None if err is None else type(err).__name__,
                                 connection_invalidated=getattr(err, "connection_invalidated", None),
                                 conn_invalidated=after["invalidated"], ledger_id_before=before["cid"],
-                                ledger_id_after=after["cid"], retired=sorted(m2.retired), published=sorted(after["pub"])))
-            return Res(m2, sl, w.extras(m2))
+                                ledger_id_after=after["cid"], retired=sorted(m2.retired),
+                                published=None if after["pub"] is None else sorted(after["pub"])))
+            return Res(m2, sl, w.extras(m2) + (after["in_tx"], after["in_nested"], after["invalidated"], after["closed"]))
 
         def retire(m2, pool_too):
             cid = ev[1].cid
@@ -499,15 +510,15 @@ def make_step(rec, env, cfg):
         cls = classify(listener, ev[2]) if ev is not None else None
         # (a real disconnect the listener vetoed may still invalidate: the autorollback on the dead connection fails
         # with a second, unvetoed disconnect error -- the statement is silent about that combination)
-        if (after["invalidated"] and not before["invalidated"] and op != "reconn"
-                and not (ev is not None and (cls or ev[2] == "disc"))):
+        if (after["invalidated"] and not before["invalidated"] and op != "reconn" and not ms.loose
+                and not (ev is not None and (cls or ev[2] in ("disc", "exit")))):
             return bad("invalidated-without-disconnect", "conn.invalidated became True")
 
         dead_calls = any(c.dead and c.kind != "close" for c in sl)
         if ms.loose or (op == "reconn" and (fired or ms.zombie or dead_calls)):
             # the statement is silent here: keep exploring with the invariants only
             m2 = m2.replace(loose=True, nins=ms.nins + (1 if op == "exec" else 0), sps=mech)
-            if ev is not None and cls and outcome in ("raise", "exit"):
+            if ev is not None and cls and outcome in ("raise", "exit") and after["invalidated"] and after["cid"] is None:
                 m2 = retire(m2, listener != "no_pool_inval" and ev[2] != "exit")
             return finish(m2)
 
@@ -532,10 +543,22 @@ def make_step(rec, env, cfg):
         kind = ev[2]
         if outcome == "ok":
             return bad("driver-error-swallowed", "operation returned normally")
+        if ev[1].kind == "connect":
+            # the transparent reconnect itself failed: nothing can have changed (pool recovery is C26's subject)
+            if not after["invalidated"] or after["cid"] is not None:
+                return bad("failed-reconnect-state", "invalidated=%s cid=%s after a failed reconnect" % (after["invalidated"], after["cid"]))
+            if kind == "exit":
+                return finish(m2.replace(loose=True, nins=ms.nins + (1 if op == "exec" else 0), sps=mech))
+            return finish(m2.replace(nins=ms.nins + (1 if op == "exec" else 0), sps=mech))
         if kind == "exit":
+            # not a dialect-classified error: the statement is silent; it must propagate, then invariants only
             if outcome != "exit":
                 return bad("exit-exception-lost", "KeyboardInterrupt replaced by %s" % type(err).__name__)
-        elif not isinstance(err, sa_exc.DBAPIError) or not isinstance(getattr(err, "orig", None), sqlite3.Error):
+            m2 = m2.replace(loose=True, nins=ms.nins + (1 if op == "exec" else 0), sps=mech)
+            if after["invalidated"] and after["cid"] is None:
+                m2 = retire(m2, False)
+            return finish(m2)
+        if not isinstance(err, sa_exc.DBAPIError) or not isinstance(getattr(err, "orig", None), sqlite3.Error):
             return bad("driver-error-not-wrapped", "%s: %s" % (type(err).__name__, str(err)[:120]))
         nins = ms.nins + (1 if op == "exec" else 0)
         if cls:
@@ -563,11 +586,13 @@ def make_step(rec, env, cfg):
             return bad("P5-connection_invalidated-flag", "connection_invalidated True on a non-disconnect")
         if after["invalidated"]:
             return bad("P5-invalidated", "conn.invalidated True after a non-disconnect error")
-        if after["cid"] != before["cid"]:
-            return bad("P5-connection-changed", "ledger id c%s -> c%s" % (before["cid"], after["cid"]))
-        if any(c.kind == "close" for c in sl) or after["open"] != before["open"]:
+        if after["cid"] != ev[1].cid:
+            return bad("P5-connection-changed", "ledger id c%s -> c%s" % (ev[1].cid, after["cid"]))
+        if ms.status == "inv":
+            pass  # the operation reconnected first: the pool was legitimately used before the error
+        elif any(c.kind == "close" for c in sl) or after["open"] != before["open"]:
             return bad("P5-pool-touched", "DBAPI connections closed / opened: %s -> %s" % (before["open"], after["open"]))
-        if (after["checkedin"], after["checkedout"]) != (before["checkedin"], before["checkedout"]):
+        if ms.status != "inv" and (after["checkedin"], after["checkedout"]) != (before["checkedin"], before["checkedout"]):
             return bad("P5-pool-touched", "checkedin/checkedout %s -> %s" % (
                 (before["checkedin"], before["checkedout"]), (after["checkedin"], after["checkedout"])))
         if kind != "err":
@@ -579,7 +604,7 @@ def make_step(rec, env, cfg):
             tx = m2.tx
             if root and not tx.in_tx:
                 tx = tx.begin()
-            return finish(m2.replace(root=root, tx=tx, nins=nins, sps=mech))
+            return finish(m2.replace(status="ok", root=root, tx=tx, nins=nins, sps=mech))
         return finish(m2.replace(loose=True, nins=nins, sps=mech))
 
     return step
